@@ -144,8 +144,10 @@ Definition insert (e : entry) (es : list entry) : list entry :=
 Definition n_SignTransaction := Eval vm_compute in bs "SignTransaction".
 Definition n_Sign := Eval vm_compute in bs "Sign".
 Definition n_SendTransaction := Eval vm_compute in bs "SendTransaction".
+Definition n_SignAndSendTransaction := Eval vm_compute in bs "SignAndSendTransaction".
 Definition is_protected (name : bytes) : bool :=
-  bytes_eqb name n_SignTransaction || bytes_eqb name n_Sign || bytes_eqb name n_SendTransaction.
+  bytes_eqb name n_SignTransaction || bytes_eqb name n_Sign || bytes_eqb name n_SendTransaction
+  || bytes_eqb name n_SignAndSendTransaction.
 
 Definition suf_startIPC := Eval vm_compute in bs ".startIPC".
 Definition suf_startInProc := Eval vm_compute in bs ".startInProc".
